@@ -89,6 +89,8 @@ func init() {
 		{"C04", "C04/type-subsumption", "C01/type-subsumption", ruleC01TypeSubsumption},
 		{"C19", "C19/json-name-conflicts", "C04/json-name-conflicts", func(c *Ctx) { ruleJSONNameConflicts(c, "C04/json-name-conflicts") }}, // the inferred order is the order of the fields that win
 		{"C16", "C16/json-name-conflicts", "C04/json-name-conflicts", func(c *Ctx) { ruleJSONNameConflicts(c, "C04/json-name-conflicts") }},
+		{"C04", "C04/skip-by-index-prefix", "C16/skip-by-index-prefix", ruleC16SkipPrefix}, // promoted fields of a hidden embedded struct must not become properties
+		{"C09", "C09/skip-by-index-prefix", "C16/skip-by-index-prefix", ruleC16SkipPrefix},
 		{"C13", "C13/root-provenance", "C02/root-provenance", ruleC02RootProvenance}, // the one write Resolve makes into a caller's schema: only to fill in a missing $schema
 	} {
 		sh := sh
